@@ -38,6 +38,8 @@ def run(tier):
     rnd = random.Random(common.seed())
     bd = common.build("plain")
     wd = common.workdir("c02")
+    r = common.tlc("ReaderImpl", "MC_ReaderStream.cfg", workers=8, timeout=900)
+    ck.require_ok("ReaderImpl/MC_ReaderStream.cfg", r); ck.add_tlc("ReaderImpl/MC_ReaderStream.cfg (SequentialPrefix, EveryCallReturns)", r)
     seeds = corpus.seed_files(rnd, big=True) + corpus.special_files(rnd)
     if tier == "quick":
         seeds = rnd.sample(seeds, 10) + corpus.special_files(rnd)[:2]
